@@ -52,6 +52,11 @@ def body_wsgi_response(I, X, method="GET", lens=(1, 2), preset="absent", kinds=N
         resp.headers["Content-Length"] = str(total)
     elif preset == "other":
         resp.headers["Content-Length"] = "7"
+    elif preset == "dup":
+        # an application (or a proxy layer) that added the header twice
+        resp.headers.add("Content-Length", str(total))
+        resp.headers.add("X-Between", "1") if total % 2 else None
+        resp.headers.add("Content-Length", str(total))
     environ = {"REQUEST_METHOD": method, "wsgi.url_scheme": "http", "SERVER_NAME": "s", "SERVER_PORT": "80", "PATH_INFO": "/"}
     app_iter, st, headers = I.call(resp.get_wsgi_response, (environ,))
     out = b""
@@ -84,6 +89,8 @@ def body_wsgi_response(I, X, method="GET", lens=(1, 2), preset="absent", kinds=N
         if preset == "absent":
             # the computed length is the number of body bytes the response produces for GET
             ok = pand(ok, cl is not None and len(cl) == 1 and peq(cl[0], str(total)))
+        elif preset == "dup":
+            ok = pand(ok, cl is not None and all(bool(peq(x, str(total))) for x in cl))
         else:
             ok = pand(ok, cl is not None and len(cl) == 1 and peq(cl[0], str(total) if preset == "right" else "7"))
     ok = pand(ok, len(closed) == 1)
@@ -271,6 +278,11 @@ def obligations(tier, seed):
                 out.append({"name": f"wsgi_response[{method},lens={lens},cl={preset}]", "body": "body_wsgi_response",
                             "params": {"method": method, "lens": list(lens), "preset": preset},
                             "opts": {"budget_s": 600, "ctx": {"bv_ints": True}}, "witness": lens == (1, 2) and preset == "absent"})
+    for method in ("GET", "HEAD"):
+        for lens in [(), (1,), (2,), (1, 2)]:
+            out.append({"name": f"wsgi_response[{method},lens={lens},cl=dup]", "body": "body_wsgi_response",
+                        "params": {"method": method, "lens": list(lens), "preset": "dup"},
+                        "opts": {"budget_s": 600, "ctx": {"bv_ints": True}}})
     for method in ("GET", "HEAD"):
         for lens, kinds in [((1,), "s"), ((2,), "s"), ((1, 1), "sb"), ((1, 2), "bs"), ((2, 1), "ss")] + ([] if quick else [((3,), "s"), ((2, 2), "ss"), ((1, 1, 1), "sbs")]):
             for preset in ("absent", "right"):
